@@ -1678,6 +1678,10 @@ func unmarshalList(info TypeInfo, data []byte, value interface{}) error {
 			return err
 		}
 		data = data[p:]
+		// every element takes at least its length prefix
+		if n < 0 || n > len(data)/p {
+			return unmarshalErrorf("unmarshal list: invalid size %d for %d bytes of data", n, len(data))
+		}
 		if k == reflect.Array {
 			if rv.Len() != n {
 				return unmarshalErrorf("unmarshal list: array with wrong size")
@@ -1798,8 +1802,12 @@ func unmarshalMap(info TypeInfo, data []byte, value interface{}) error {
 	if n < 0 {
 		return unmarshalErrorf("negative map size %d", n)
 	}
-	rv.Set(reflect.MakeMapWithSize(t, n))
 	data = data[p:]
+	// every entry takes at least the length prefixes of its key and value
+	if n > len(data)/(2*p) {
+		return unmarshalErrorf("unmarshal map: invalid size %d for %d bytes of data", n, len(data))
+	}
+	rv.Set(reflect.MakeMapWithSize(t, n))
 	for i := 0; i < n; i++ {
 		m, p, err := readCollectionSize(mapInfo, data)
 		if err != nil {
